@@ -136,8 +136,8 @@ RULES = {
     "C18": "Auto-trait truth table read at run time: a trait probe (inherent associated const on Probe<T: Send> shadowing a blanket trait const) is instantiated for LruCache<K, V, S> with K, V, S ranging over {u8 (Send+Sync), Cell<u8> (Send only), MutexGuard<'static, u8> (Sync only), Rc<u8> (neither)} = 64 types x {Send, Sync}; every entry must equal 'all three are Send' / 'all three are Sync'. The probe is first checked on types with known auto traits. The positive direction is exercised: caches are moved to another thread, mutated there and moved back; &cache is shared by 3-4 reader threads natively and under Miri's race detector. NOT decided: the borrowing/lifetime sentence of C18 (a statement about programs the compiler rejects; no execution can witness it).",
     "C19": "(a) MMU write trap: the boxed cache, its table, seal and all keys/values are built inside an mmap arena which is then mprotect-ed read-only; every shared-reference operation (peek/peek_entry/contains for every present and absent id in both key forms, peek_lru/mru, len/is_empty/current_size/max_size/capacity/hasher, iter/keys/values forward, backward and interleaved, Debug, clone + drop of the clone, the hook walk) runs on one thread and then on 4 threads at once; any store into the arena, even of the value already there, raises SIGSEGV -> WRITE-TRAP. (b) byte hash of the arena region and full observation before/after. (c) the same operations from 3 threads under Miri (happens-before race detector) and (d, thorough) ThreadSanitizer. Plus the fingerprint facet on every &self operation inside random histories. distinct = (length class, hasher, tombstones?, table full?, threads).",
     "C20": "Hash-call counter (owned + borrowed key forms) read around every API call: <= 2 + departures, + held entries only when the hook shows the table was re-allocated by an operation allowed to rebuild; == 0 for traversals, clear, drain, peek_lru/peek_mru. distinct = (operation, length class, #departures class, rebuilt?, #hashes).",
-    "C08": "Type matrix of 115 concrete nestings of the supported constructors (leaves, String/OsString/CString/PathBuf, Vec, Box<sized/slice/str/CStr/Path>, arrays of length 0/1/3 incl. arrays of arrays, tuples of arity 1-10, Option, Result, Wrapping, all range types, Mutex, RwLock, BinaryHeap, HashMap, HashSet, references) with random spare capacity at every level. For each random value: mem_size == value_size + heap_size, value_size == size_of, heap_size == an independently written composition law (u128). For random vectors of each type: the four bulk helpers == element-wise sums over 9 iterator shapes (plain, rev, skip/take, step_by, index-mapped with repeats, empty, filtered, chained, take_while) - exact-size variants on the exact-size shapes; unsized elements ([String], str, Path, CStr) through references. Totality: 18 big inputs (10^6-10^7 elements, runs of zero-length arrays, ZSTs) each in its own process built at opt-level 0 and in release, on the main thread and on a default 2 MiB thread; verdict = exit status. distinct = (type, shape/helper, value class).",
-    "C09": "Same 115-type matrix; each value is built INSIDE an attribution scope of the harness' counting global allocator by a random plan of with_capacity / push / reserve / reserve_exact / shrink_to / shrink_to_fit / truncate / pop / into_boxed_* steps at every nesting level; heap_size() must equal the live bytes attributed to the value (exactly, for everything not containing a hash table); for values containing HashMap/HashSet: capacity x entry size + elements <= heap_size <= live bytes; references contribute 0 (their targets are allocated outside the scope). distinct = (type, holds memory?, exact?, size class).",
+    "C08": "Type matrix of 345 concrete nestings (115 hand-picked + 23 constructors x 10 inner types) of the supported constructors (leaves, String/OsString/CString/PathBuf, Vec, Box<sized/slice/str/CStr/Path>, arrays of length 0/1/3 incl. arrays of arrays, tuples of arity 1-10, Option, Result, Wrapping, all range types, Mutex, RwLock, BinaryHeap, HashMap, HashSet, references) with random spare capacity at every level. For each random value: mem_size == value_size + heap_size, value_size == size_of, heap_size == an independently written composition law (u128). For random vectors of each type: the four bulk helpers == element-wise sums over 9 iterator shapes (plain, rev, skip/take, step_by, index-mapped with repeats, empty, filtered, chained, take_while) - exact-size variants on the exact-size shapes; unsized elements ([String], str, Path, CStr) through references. Totality: 18 big inputs (10^6-10^7 elements, runs of zero-length arrays, ZSTs) each in its own process built at opt-level 0 and in release, on the main thread and on a default 2 MiB thread; verdict = exit status. distinct = (type, shape/helper, value class).",
+    "C09": "Same 345-type matrix; each value is built INSIDE an attribution scope of the harness' counting global allocator by a random plan of with_capacity / push / reserve / reserve_exact / shrink_to / shrink_to_fit / truncate / pop / into_boxed_* steps at every nesting level; heap_size() must equal the live bytes attributed to the value (exactly, for everything not containing a hash table); for values containing HashMap/HashSet: capacity x entry size + elements <= heap_size <= live bytes; references contribute 0 (their targets are allocated outside the scope). distinct = (type, holds memory?, exact?, size class).",
     "C10": "insert/try_insert with sizes aimed at both sides of every threshold; classification, payload, identity of the returned pair and 'nothing changed' computed from the pre-state. distinct = (insert|try_insert, which failure conditions hold at once, boundary hit, length class, cache exactly full?).",
     "C11": "mutate at every position with shrink / same / fits / needs k evictions / too large; closure-ran flag, forwarded token, order, recorded size (hook), evictions and error payload compared with the spec computed from the pre-state. distinct = (present?, size-change class, position, #evictions class, exact fit, length class).",
 }
